@@ -2,7 +2,8 @@
 (* Trace validation of recorded mini-batches of the real mixed_rank_graph.                *)
 (* ndjson record: {"cols":[names], "rel":[names containing " AND_REL "], "label":name,    *)
 (*   "mode":"target"|"pairwise", "kind":"scoring"|"scoring3mr"|"Constant", "cap":c,       *)
-(*   "ncand": length of the real candidate list, "trip":[[a,b,scaled score],...]}         *)
+(*   "ncand": length of the real candidate list, "ndup": how many of its entries repeat   *)
+(*   a pair listed earlier, "trip":[[a,b,scaled score],...]}                               *)
 (* The record is accepted iff the triplets satisfy C06 against SpecPairs computed here.   *)
 EXTENDS Naturals, Integers, Sequences, FiniteSets, FiniteSetsExt, TLC, Json, IOUtils
 
@@ -24,10 +25,10 @@ RecordOK(r) ==
         \* ClampCap: 3MR heuristics cap the number of candidates at MAX_FEATURES_3MR = 10^4
         capEff == IF r.kind = "scoring3mr" /\ r.cap > 10000 THEN 10000 ELSE r.cap IN
     /\ PairsOf(r.trip) \subseteq SpecPairs(r)                                        \* PairsExact (subset part)
-    /\ nsel = Min2(capEff, r.ncand)                                                   \* reduced only by the cap
+    /\ Cardinality(PairsOf(r.trip)) <= Min2(capEff, r.ncand)                          \* reduced only by the cap:
+    /\ Cardinality(PairsOf(r.trip)) >= Min2(capEff, r.ncand) - r.ndup                 \*   min(cap, #candidates) candidates, minus repeated pairs
     /\ (capEff >= r.ncand => PairsOf(r.trip) = SpecPairs(r))                          \* PairsExact
     /\ (r.kind # "Constant" => \A t \in TripSet(r.trip) : <<t[2], t[1], t[3]>> \in TripSet(r.trip))   \* BothOrientations
-    /\ (r.kind # "Constant" => Len(r.trip) % 2 = 0)
     /\ (r.kind = "Constant" => \A k \in DOMAIN r.trip : r.trip[k][3] = 0)            \* ConstantOnce
     /\ \A k \in DOMAIN r.trip : r.trip[k][1] \in RangeOf(r.cols) /\ r.trip[k][2] \in RangeOf(r.cols)   \* NoForeignColumn
 
